@@ -53,7 +53,11 @@ def _case(draw):
         "ws": draw(gen.fl(2.0, 8.0)), "z0": zm * draw(gen.logfl(10**-2.5, 10**-1.2)),
         "nx": nx, "ny": ny, "dx": float(f"{dx:.5g}"), "dy": float(f"{dy:.5g}"),
         "fx": draw(gen.fl(0.35, 0.65)), "fy": draw(gen.fl(0.35, 0.65)),
-        "ref": [draw(gen.fl(-60.0, 60.0)), draw(gen.fl(-180.0, 180.0))],
+        # any reference origin; one in four next to the equator / the Greenwich meridian / the antimeridian, so that
+        # the domain straddles it (or the origin coordinate is exactly 0)
+        "ref": [draw(st.one_of(gen.fl(-60.0, 60.0), gen.fl(-60.0, 60.0), gen.fl(-60.0, 60.0), st.sampled_from([0.0, -0.002, 0.001]))),
+                draw(st.one_of(gen.fl(-180.0, 180.0), gen.fl(-180.0, 180.0), gen.fl(-180.0, 180.0),
+                               st.sampled_from([0.0, -0.002, -0.0005, 0.001, 179.998, -179.999])))],
         "halo": draw(st.sampled_from(["default", "third"])), "nz": draw(st.integers(8, 16)),
         "turn": draw(st.sampled_from([90.0, 135.0, 180.0, 225.0, 270.0])),
     }
